@@ -355,7 +355,7 @@ Proof. exact S02_H7_guard. Qed.
 Print Assumptions C02_H7_is_the_guard.
 
 (* ---- what fails outside the hypotheses (all replayed on the real code) ----------------------- *)
-(* H7: candidate finding, ~TcpServer while an io loop is inside a drain: the queued connectDestroyed is destroyed unrun with
+(* H7: finding F-25, ~TcpServer while an io loop is inside a drain: the queued connectDestroyed is destroyed unrun with
    the EventLoop, ~TcpConnection runs while kConnected (a: the io thread is in a write-complete callback, b: in front of the
    connectEstablished of a connection accepted just before, c: inside a drain of an empty batch) *)
 Theorem C02_server_destroy_drops_queued_destroy_refuted :
